@@ -249,6 +249,71 @@ def concrete_roundtrips(repo, seed, n):
             tol = 1e-8 if "16" in form else 0.06
             if tab.shape != (npts, 2) or not (np.allclose(tab[:, 0], t, rtol=tol, atol=0) and np.allclose(tab[:, 1], d, rtol=tol, atol=0)):
                 return ev, dict(pair="wttabled1/rdtabled1", npts=npts, form=form, t=t.tolist(), d=d.tolist(), got=tab.tolist())
+        # the same cards laid out with tabs (a tab moves to the next 8-column boundary - an equivalent physical layout of the same fixed-field card): the writer's
+        # text is re-laid mechanically (runs of blanks ending on an 8-column boundary -> tabs) on first lines only / continuation lines only / all lines
+        if it % 4 == 0:
+            def retab(text, which):
+                out = []
+                for ln in text.split("\n"):
+                    first = bool(ln[:1].strip()) and not ln.startswith(("+", "*"))
+                    if (which == "first" and not first) or (which == "cont" and first):
+                        out.append(ln); continue
+                    new, i = "", 0
+                    while i < len(ln):
+                        if ln[i] == " ":
+                            j = i
+                            while j < len(ln) and ln[j] == " ":
+                                j += 1
+                            b8 = (j // 8) * 8
+                            if j < len(ln) and b8 > i:          # blanks from i up to the boundary b8 become tabs, the rest stays
+                                new += "\t" * (b8 // 8 - i // 8) + " " * (j - b8)
+                            else:
+                                new += ln[i:j]
+                            i = j
+                        else:
+                            new += ln[i]; i += 1
+                    out.append(new if new.expandtabs() == ln else ln)
+                return "\n".join(out)
+
+            def same_(a_, b_):
+                if isinstance(a_, dict):
+                    return isinstance(b_, dict) and list(a_) == list(b_) and all(same_(a_[k_], b_[k_]) for k_ in a_)
+                if isinstance(a_, (list, tuple)) and not isinstance(b_, np.ndarray):
+                    return len(a_) == len(b_) and all(same_(x_, y_) for x_, y_ in zip(a_, b_))
+                if isinstance(a_, pd.DataFrame):
+                    return isinstance(b_, pd.DataFrame) and a_.shape == b_.shape and list(a_.index) == list(b_.index) and list(a_.columns) == list(b_.columns) and np.array_equal(a_.values, b_.values)
+                try:
+                    return np.array_equal(np.asarray(a_), np.asarray(b_), equal_nan=True)
+                except TypeError:
+                    return np.array_equal(np.asarray(a_), np.asarray(b_))
+            ng_ = 3
+            xyz_ = np.round(rng.randn(ng_, 3) * 10, 3)
+            Ms = rng.randn(3, 3); Ms = Ms + Ms.T
+            ri_ = pd.MultiIndex.from_tuples([(11, 1), (11, 3), (12, 2)], names=["id", "dof"])
+            pairs = [("wtcsuper/rdcsupers", lambda f_: nastran.wtcsuper(f_, 100, ids), nastran.rdcsupers),
+                     ("wtextrn/rdextrn", lambda f_: nastran.wtextrn(f_, ids, dofs), lambda f_: nastran.rdextrn(f_, expand=False)),
+                     ("wttabled1/rdtabled1 (16)", lambda f_: nastran.wttabled1(f_, 10, t, d, form="{:16.9E}{:16.9E}"), nastran.rdtabled1),
+                     ("wttabled1/rdtabled1 (8)", lambda f_: nastran.wttabled1(f_, 10, t, d, form="{:8.2E}{:8.1E}"), nastran.rdtabled1),
+                     ("wtgrids/rdgrids (8)", lambda f_: nastran.wtgrids(f_, [5, 6, 7], 3, xyz_, 4, 123, 2, "{:8.3f}"), nastran.rdgrids),
+                     ("wtgrids/rdgrids (16)", lambda f_: nastran.wtgrids(f_, [5, 6, 7], 3, xyz_, 4, 123, 2, "{:16.8f}"), nastran.rdgrids),
+                     ("wtspoints/rdspoints", lambda f_: nastran.wtspoints(f_, ids), nastran.rdspoints),
+                     ("wtdmig/rddmig", lambda f_: nastran.wtdmig(f_, {"KAA": pd.DataFrame(Ms, index=ri_, columns=ri_)}), nastran.rddmig)]
+            for pname, wr_, rd_ in pairs:
+                f = io.StringIO(); wr_(f); text0 = f.getvalue()
+                base_ = rd_(io.StringIO(text0))
+                for which in ("first", "cont", "all"):
+                    t2 = retab(text0, which)
+                    if t2 == text0:
+                        continue
+                    ev += 1
+                    try:
+                        got_ = rd_(io.StringIO(t2))
+                        ok_ = same_(base_, got_)
+                    except Exception as ex:
+                        ok_, got_ = False, "exception %r" % (ex,)
+                    if not ok_:
+                        return ev, dict(pair=pname, what="the same cards laid out with tabs on %s lines are read differently" % {"first": "the first", "cont": "the continuation", "all": "all"}[which],
+                                        text=t2[:600])
         # grids
         ng = rng.randint(1, 5)
         gids = sorted(rng.choice(np.arange(1, 9999), ng, replace=False).tolist())
